@@ -80,10 +80,15 @@ def gen_displacement(rng, nz, dz, cls):
         return sgn * dz * rng.randint(1, 2 * nz)
     if cls == 'near-node':
         return sgn * dz * rng.randint(1, nz) + rng.choice([-1, 1]) * dz * F(1, 2 ** 40)
+    if cls == 'shift-zero':
+        # the stencil floor(zDist/dz) + (-2..3) contains the plane itself at position j: that line has no z shift and
+        # no theta shift although the field lines are twisted
+        j = rng.randint(0, 5)
+        return dz * ((2 - j) + F(rng.randint(1, 19), 20))
     raise ValueError(cls)
 
 
-DISP = ['zero', 'sub-cell', 'multi-cell', 'many-periods', 'on-node', 'near-node']
+DISP = ['zero', 'sub-cell', 'multi-cell', 'many-periods', 'on-node', 'near-node', 'shift-zero']
 
 
 def gen_kernel_case(rng, k, tier):
@@ -96,7 +101,7 @@ def gen_kernel_case(rng, k, tier):
     dz = F(rng.randint(1, 9), rng.choice([2, 3, 5]))
     cls = DISP[k % len(DISP)]
     zDist = gen_displacement(rng, nz, dz, cls)
-    twist = 'no-twist' if k % 7 in (0, 3, 4) else 'twist'
+    twist = 'no-twist' if ((k // len(DISP)) % 3 == 1 and cls != 'shift-zero') else 'twist'     # independent of the class
     iota = F(0) if twist == 'no-twist' else F(rng.choice([4, -13, 7, -3]), rng.choice([5, 10, 3]))
     dtheta = dz * iota / F(rng.choice([239, 100, 17]), rng.choice([1, 3]))
     z = dz * rng.choice([0, 1, 1, 2])
